@@ -487,7 +487,7 @@ func ruleSDPFormatGuarded(c *Ctx) {
 	p := c.P
 	n := 0
 	ord := map[*ssa.Function]int{}
-	for _, rel := range []string{"service/rtsp", "service/wsp"} {
+	for _, rel := range []string{"service/rtsp", "service/wsp", "av/format/sdp"} {
 		for _, fn := range p.FuncsInPkg(rel) {
 			instrs(fn, func(ins ssa.Instruction) {
 				ia, ok := ins.(*ssa.IndexAddr)
@@ -526,6 +526,10 @@ func ruleSDPFormatGuarded(c *Ctx) {
 					}
 					viaTrue := d.Succs[0] == ins.Block() || d.Succs[0].Dominates(ins.Block())
 					if (bo.Op == token.GTR && k == 0 || bo.Op == token.NEQ && k == 0 || bo.Op == token.GEQ && k == 1) && viaTrue {
+						guarded = true
+					}
+					viaFalse := (d.Succs[1] == ins.Block() || d.Succs[1].Dominates(ins.Block())) && len(d.Succs[1].Preds) == 1
+					if (bo.Op == token.EQL && k == 0 || bo.Op == token.LSS && k == 1 || bo.Op == token.LEQ && k == 0) && viaFalse {
 						guarded = true
 					}
 				}
